@@ -2,35 +2,17 @@ package main
 
 import (
 	"fmt"
-	"io"
-	"math/rand"
-	"strconv"
 	"sync"
-	"time"
-
-	frugal "github.com/Workiva/frugal/lib/go"
-	"github.com/apache/thrift/lib/go/thrift"
 
 	"verif/ev"
 	"verif/rig"
-	"verif/wire"
 )
 
 // stress runs hook-free concurrent callers against adversarial response plans.
-type stressCaller struct {
-	kind    byte // 'A' answered, 'T' never answered, 'L' answered only after it returned
-	copies  int
-	opid    uint64
-	err     error
-	gotOpid string
-	gotTok  string
-	done    chan struct{}
-}
-
 func stress(run *ev.Run, nats *rig.NatsServer) {
-	trials := 120
+	trials := 300
 	if run.Thorough() {
-		trials = 3000
+		trials = 4000
 	}
 	rng := run.Rand("c01-stress")
 	type trialSpec struct {
@@ -50,254 +32,42 @@ func stress(run *ev.Run, nats *rig.NatsServer) {
 	var wg sync.WaitGroup
 	sem := make(chan struct{}, 8)
 	var mu sync.Mutex
-	totalCallers, totalFrames := 0, 0
+	totalCallers, totalFrames, stalls := 0, 0, 0
 	for i, sp := range specs {
 		wg.Add(1)
 		sem <- struct{}{}
 		go func(i int, sp trialSpec) {
 			defer wg.Done()
 			defer func() { <-sem }()
-			callers, frames, shape, bad, witness := stressTrial(sp.leg, sp.n, sp.seed, nats)
-			run.Eval(1)
 			mu.Lock()
-			totalCallers += callers
-			totalFrames += frames
+			skip := stalls >= 8
 			mu.Unlock()
-			if bad != "" {
-				if bad[0] == '?' {
-					run.Inconclusive(fmt.Sprintf("stress trial %d: %s", i, bad[1:]))
-					return
-				}
-				run.Violation("C01:stress:"+sp.leg+":"+classify(bad), bad, witness)
+			if skip {
 				return
 			}
-			run.Distinct("stress " + sp.leg + " " + shape)
+			r := rig.StressTrial(sp.leg, sp.n, sp.seed, nats, 3)
+			run.Eval(1)
+			mu.Lock()
+			totalCallers += r.Callers
+			totalFrames += r.Frames
+			mu.Unlock()
+			switch {
+			case r.Bad != "":
+				run.Violation("C01:stress:"+sp.leg+":"+classify(r.Bad), r.Bad, r.Witness)
+			case r.Stall != "":
+				mu.Lock()
+				stalls++ // C06's verdict
+				mu.Unlock()
+			case r.Inconclusive != "":
+				run.Inconclusive(fmt.Sprintf("stress trial %d: %s", i, r.Inconclusive))
+			default:
+				run.Distinct("stress " + sp.leg + " " + r.Shape)
+			}
 		}(i, sp)
 	}
 	wg.Wait()
 	run.Set("stress_trials", trials)
 	run.Set("stress_callers", totalCallers)
 	run.Set("stress_response_frames_injected", totalFrames)
-}
-
-func stressTrial(legName string, n int, seed int64, nats *rig.NatsServer) (callers, frames int, shape, bad string, witness interface{}) {
-	rng := rand.New(rand.NewSource(seed))
-	var leg rig.MuxLeg
-	seen := make(chan uint64, 4*n+8)
-	onReq := func(frame []byte) {
-		if len(frame) < 4 {
-			return
-		}
-		pairs, _, err := wire.DecodeHeaders(frame[4:])
-		if err != nil {
-			return
-		}
-		m, _ := wire.PairsToMap(pairs)
-		if op, err := strconv.ParseUint(m["_opid"], 10, 64); err == nil {
-			seen <- op
-		}
-	}
-	if legName == "adapter" {
-		a := rig.NewAdapterLeg()
-		a.St.OnFrame = onReq
-		leg = a
-	} else {
-		nl := rig.NewNatsLeg(nats)
-		nl.OnRequest = func(_ string, f []byte) { onReq(f) }
-		leg = nl
-	}
-	tr, err := leg.Open()
-	if err != nil {
-		return 0, 0, "", "?open: " + err.Error(), nil
-	}
-	defer leg.Close()
-
-	cs := make([]*stressCaller, n)
-	kinds := ""
-	for i := range cs {
-		c := &stressCaller{done: make(chan struct{})}
-		switch r := rng.Intn(10); {
-		case r < 6:
-			c.kind, c.copies = 'A', 1+rng.Intn(3)
-		case r < 8:
-			c.kind = 'T'
-		default:
-			c.kind, c.copies = 'L', 1+rng.Intn(2)
-		}
-		kinds += string(c.kind) + strconv.Itoa(c.copies)
-		cs[i] = c
-	}
-	shape = fmt.Sprintf("n=%d %s", n, kinds)
-	byOp := map[uint64]*stressCaller{}
-	var start sync.WaitGroup
-	start.Add(1)
-	for i, c := range cs {
-		ctx := frugal.NewFContext("")
-		if c.kind == 'A' {
-			ctx.SetTimeout(60 * time.Second)
-		} else {
-			ctx.SetTimeout(time.Duration(30+rng.Intn(30)) * time.Millisecond)
-		}
-		c.opid = rig.OpidOf(ctx)
-		byOp[c.opid] = c
-		go func(i int, c *stressCaller, ctx frugal.FContext) {
-			defer close(c.done)
-			start.Wait()
-			req := wire.BuildFrame(wire.MapToPairs(ctx.RequestHeaders()), []byte("req"))
-			rt, err := tr.Request(ctx, req)
-			if err != nil {
-				c.err = err
-				return
-			}
-			if rt == nil {
-				c.err = fmt.Errorf("nil transport, nil error")
-				return
-			}
-			body, _ := io.ReadAll(rt)
-			pairs, used, perr := wire.DecodeHeaders(body)
-			if perr != nil {
-				c.err = fmt.Errorf("unparseable frame returned: %v", perr)
-				return
-			}
-			m, _ := wire.PairsToMap(pairs)
-			c.gotOpid, c.gotTok = m["_opid"], string(body[used:])
-		}(i, c, ctx)
-	}
-	start.Done()
-	// wait until every request is on the wire (so responses can be permuted freely)
-	pendingReq := n
-	wd := time.After(20 * time.Second)
-	for pendingReq > 0 {
-		select {
-		case <-seen:
-			pendingReq--
-		case <-wd:
-			return n, 0, shape, "?not every request reached the wire", nil
-		}
-	}
-	// response plan: unknown ids and the copies of answered callers in a random permutation
-	type fr struct {
-		op  uint64
-		tok string
-	}
-	var plan []fr
-	for i, c := range cs {
-		if c.kind == 'A' {
-			for k := 0; k < c.copies; k++ {
-				plan = append(plan, fr{c.opid, fmt.Sprintf("resp:c%d:k%d", i, k)})
-			}
-		}
-	}
-	for u := rng.Intn(4); u > 0; u-- {
-		uctx := frugal.NewFContext("")
-		plan = append(plan, fr{rig.OpidOf(uctx), "resp:unknown"})
-	}
-	rng.Shuffle(len(plan), func(i, j int) { plan[i], plan[j] = plan[j], plan[i] })
-	burst := rng.Intn(2) == 0
-	if burst && legName == "adapter" {
-		var all []byte
-		for _, f := range plan {
-			all = append(all, rig.FrameFor(f.op, f.tok)...)
-		}
-		leg.Inject(0, all) // several frames in one read
-	} else {
-		for _, f := range plan {
-			leg.Inject(f.op, rig.FrameFor(f.op, f.tok))
-		}
-	}
-	frames = len(plan)
-	// wait for A callers; T and L callers time out by themselves
-	wd = time.After(30 * time.Second)
-	for _, c := range cs {
-		select {
-		case <-c.done:
-		case <-wd:
-			return n, frames, shape, "?a caller did not return within the watchdog (possible reader stall, see C06)", nil
-		}
-	}
-	// late frames for L callers and repeated frames for completed A callers
-	late := 0
-	for i, c := range cs {
-		if c.kind == 'L' {
-			for k := 0; k < c.copies; k++ {
-				leg.Inject(c.opid, rig.FrameFor(c.opid, fmt.Sprintf("late:c%d:k%d", i, k)))
-				late++
-			}
-		} else if c.kind == 'A' && rng.Intn(3) == 0 {
-			leg.Inject(c.opid, rig.FrameFor(c.opid, fmt.Sprintf("again:c%d", i)))
-			late++
-		}
-	}
-	frames += late
-	// a fresh request after everything must still be answered with its own frame
-	fctx := frugal.NewFContext("")
-	fctx.SetTimeout(60 * time.Second)
-	fop := rig.OpidOf(fctx)
-	fdone := make(chan error, 1)
-	var ftok string
-	go func() {
-		rt, err := tr.Request(fctx, wire.BuildFrame(wire.MapToPairs(fctx.RequestHeaders()), []byte("req")))
-		if err == nil && rt != nil {
-			body, _ := io.ReadAll(rt)
-			_, used, perr := wire.DecodeHeaders(body)
-			if perr == nil {
-				ftok = string(body[used:])
-			}
-		}
-		fdone <- err
-	}()
-	wd = time.After(20 * time.Second)
-	for got := false; !got; {
-		select {
-		case op := <-seen:
-			got = op == fop
-		case <-wd:
-			return n, frames, shape, "?fresh request did not reach the wire", nil
-		}
-	}
-	leg.Inject(fop, rig.FrameFor(fop, "resp:fresh"))
-	select {
-	case err := <-fdone:
-		if err != nil || ftok != "resp:fresh" {
-			bad = fmt.Sprintf("caller fresh completed with payload %q err=%v, the frame delivered to it was %q", ftok, err, "resp:fresh")
-		}
-	case <-time.After(30 * time.Second):
-		return n, frames, shape, "?fresh request not answered within the watchdog (possible reader stall, see C06)", nil
-	}
-	// oracle
-	outs := []map[string]interface{}{}
-	for i, c := range cs {
-		o := map[string]interface{}{"caller": i, "kind": string(c.kind), "opid": c.opid, "got_opid": c.gotOpid, "got_payload": c.gotTok}
-		if c.err != nil {
-			o["err"] = c.err.Error()
-		}
-		outs = append(outs, o)
-		if bad != "" {
-			continue
-		}
-		switch c.kind {
-		case 'A':
-			if c.err != nil {
-				bad = fmt.Sprintf("caller %d was answered with its own frames but returned error %q", i, c.err)
-			} else if c.gotOpid != strconv.FormatUint(c.opid, 10) {
-				bad = fmt.Sprintf("caller %d (op id %d) completed with a frame whose _opid is %q", i, c.opid, c.gotOpid)
-			} else if want := fmt.Sprintf("resp:c%d:k", i); len(c.gotTok) < len(want) || c.gotTok[:len(want)] != want {
-				bad = fmt.Sprintf("caller %d completed with payload %q, the frame delivered to it was %q", i, c.gotTok, want+"*")
-			}
-		default:
-			te, ok := c.err.(thrift.TTransportException)
-			if !ok || te.TypeId() != frugal.TRANSPORT_EXCEPTION_TIMED_OUT {
-				bad = fmt.Sprintf("caller %d was never answered in time but returned err=%v got=%q instead of TIMED_OUT", i, c.err, c.gotTok)
-			}
-		}
-	}
-	if bad == "" {
-		if sz := frugal.VerifRegistrySize(tr); sz != 0 {
-			bad = fmt.Sprintf("registry holds %d registrations after every caller returned", sz)
-		}
-	}
-	if bad != "" {
-		witness = map[string]interface{}{"leg": legName, "seed": seed, "callers": outs, "plan": fmt.Sprint(plan), "burst": burst}
-	}
-	return n, frames, shape, bad, witness
+	run.Set("stress_trials_cut_short_by_a_reader_stall_(see_C06)", stalls)
 }
